@@ -21,6 +21,9 @@ pub enum Ctx {
     Reg(usize),
     /// a fixed id that is never registered
     Never,
+    /// the id of the live frame at `rank` used as a context id (usable only if that frame is a
+    /// registration)
+    OfFrame(usize),
 }
 
 #[derive(Serialize, Deserialize, Clone, Debug, PartialEq, Eq, Hash)]
@@ -221,6 +224,7 @@ impl Exec {
             Ctx::Zero => Some(ZERO_CONTEXT),
             Ctx::Never => Some(never_ctx()),
             Ctx::Reg(k) => self.ctxs.iter().nth(*k).cloned(),
+            Ctx::OfFrame(r) => self.live.keys().nth(*r).cloned(),
         }
     }
 
